@@ -59,3 +59,52 @@ func vxCheckInt(r, err Value, want *big.Int, id string) {
 	vxAssert(vxCanonical(r), id+"/canonical")
 	vxAssert(got.Cmp(want) == 0, id+"/exact")
 }
+
+// vxAnyInt builds a value of any kind in the AnyInt union (headers/anyint.elh): one job per
+// kind. It also returns the mathematical value.
+func vxAnyInt(name string) (Value, *big.Int) {
+	switch vxSplit(name+".kind", 11) {
+	case 0:
+		x := vxInt64(name)
+		return SmallInt(x).ToValue(), big.NewInt(x)
+	case 1:
+		b := vxBig(name)
+		vxAssume(!b.IsInt64())
+		return Ref(ToElkBigInt(b)), new(big.Int).Set(b)
+	case 2:
+		x := vxInt64(name)
+		return Int64(x).ToValue(), big.NewInt(x)
+	case 3:
+		x := vxInt32(name)
+		return Int32(x).ToValue(), big.NewInt(int64(x))
+	case 4:
+		x := vxInt16(name)
+		return Int16(x).ToValue(), big.NewInt(int64(x))
+	case 5:
+		x := vxInt8(name)
+		return Int8(x).ToValue(), big.NewInt(int64(x))
+	case 6:
+		x := vxUint64(name)
+		return UInt64(x).ToValue(), new(big.Int).SetUint64(x)
+	case 7:
+		x := vxUint32(name)
+		return UInt32(x).ToValue(), new(big.Int).SetUint64(uint64(x))
+	case 8:
+		x := vxUint16(name)
+		return UInt16(x).ToValue(), new(big.Int).SetUint64(uint64(x))
+	case 9:
+		x := vxUint8(name)
+		return UInt8(x).ToValue(), new(big.Int).SetUint64(uint64(x))
+	default:
+		x := vxUint64(name)
+		return UInt(x).ToValue(), new(big.Int).SetUint64(x)
+	}
+}
+
+// vxShiftSpec: a << s for s >= 0, floor(a / 2^-s) for s < 0 (|s| <= 200 required by the caller)
+func vxShiftSpec(a *big.Int, s int64) *big.Int {
+	if s >= 0 {
+		return new(big.Int).Lsh(a, uint(s))
+	}
+	return new(big.Int).Rsh(a, uint(-s))
+}
